@@ -52,3 +52,105 @@ fn ecc_block_k10_n2() { check_ecc_block::<2, 10, 12>(); }
 fn ecc_block_k12_n2() { check_ecc_block::<2, 12, 14>(); }
 
 // (a direct syndrome check through encode_error on 10x10 and n = 3 did not finish in 14 min and are not run)
+
+// ---- K-ECC-STEP (complete per generator degree K: every state, every data symbol) ----
+// One pass of the loop of ecc_block is one step of the long division of D(x)*x^K by the monic generator g:
+//     R'(x) = x*R(x) + a*x^K - (r_top + a)*g(x)            (R held in ecc[0..K], ecc[0] = coefficient of x^(K-1))
+// coefficient by coefficient, with independent field arithmetic:
+//     ecc'[j] = ecc[j+1] + (ecc[0] + a) * g[j+1]   (j = 0..K-1),   ecc[K] = 0 untouched,   g[0] = 1.
+// Proved here on the REAL ecc_block called with ONE data symbol, for EVERY state ecc[0..K] and every data symbol a,
+// for each of the 25 generator degrees.  What this gives for every number n of data symbols (stated argument, not
+// machine-checked): ecc_block over n symbols is the n-fold composition of this step (its only loop-carried state is
+// the ecc slice; encode_error zeroes it before every block), so ecc = D(x)*x^K mod g, and since g = prod (x + 2^i)
+// (K-GEN) the block D(x)*x^K + R(x) vanishes at 2^1..2^K.  K-ECC (n = 2, bounded) checks the roots end to end; the
+// harnesses ecc_root_step_* below check the root form of the invariant (R(rho) = D(rho)*rho^K is kept by a step,
+// for every root rho) directly for the two smallest degrees.
+fn check_ecc_step<const K: usize>() {
+    let g = generator(K);
+    assert!(g.len() == K + 1 && g[0] == 1);
+    let mut ecc = [0u8; 69];
+    let mut j = 0;
+    while j < K {
+        ecc[j] = kani::any();
+        j += 1;
+    }
+    let old = ecc;
+    let a: u8 = kani::any();
+    ecc_block(core::iter::once(a), g, &mut ecc[..K + 1]);
+    assert!(ecc[K] == 0);
+    let top = old[0] ^ a;
+    let mut j = 0;
+    while j < K {
+        assert!(ecc[j] == old[j + 1] ^ ref_mul(top, g[j + 1]));
+        j += 1;
+    }
+    kani::cover!(old[0] == 0 && a == 0 && old[1] != 0);
+}
+macro_rules! ecc_step {
+    ($name:ident, $k:expr) => {
+        #[kani::proof]
+        #[kani::unwind(70)]
+        fn $name() { check_ecc_step::<$k>(); }
+    };
+}
+ecc_step!(ecc_step_k5, 5);
+ecc_step!(ecc_step_k7, 7);
+ecc_step!(ecc_step_k10, 10);
+ecc_step!(ecc_step_k11, 11);
+ecc_step!(ecc_step_k12, 12);
+ecc_step!(ecc_step_k14, 14);
+ecc_step!(ecc_step_k15, 15);
+ecc_step!(ecc_step_k18, 18);
+ecc_step!(ecc_step_k20, 20);
+ecc_step!(ecc_step_k22, 22);
+ecc_step!(ecc_step_k24, 24);
+ecc_step!(ecc_step_k27, 27);
+ecc_step!(ecc_step_k28, 28);
+ecc_step!(ecc_step_k32, 32);
+ecc_step!(ecc_step_k34, 34);
+ecc_step!(ecc_step_k36, 36);
+ecc_step!(ecc_step_k38, 38);
+ecc_step!(ecc_step_k41, 41);
+ecc_step!(ecc_step_k42, 42);
+ecc_step!(ecc_step_k46, 46);
+ecc_step!(ecc_step_k48, 48);
+ecc_step!(ecc_step_k50, 50);
+ecc_step!(ecc_step_k56, 56);
+ecc_step!(ecc_step_k62, 62);
+ecc_step!(ecc_step_k68, 68);
+
+// root form of the invariant, for every root rho = 2^r of the generator: R(rho) = D(rho)*rho^K is kept by one step
+// (dval stands for D(rho); D' = D*x + a)
+fn check_ecc_root_step<const K: usize>() {
+    let g = generator(K);
+    let mut ecc = [0u8; 69];
+    let mut j = 0;
+    while j < K {
+        ecc[j] = kani::any();
+        j += 1;
+    }
+    let old = ecc;
+    let a: u8 = kani::any();
+    ecc_block(core::iter::once(a), g, &mut ecc[..K + 1]);
+    let mut r = 1u16;
+    while r <= K as u16 {
+        let rho = ref_pow2(r);
+        let mut rho_k = 1u8; // rho^K
+        let mut e = 0;
+        while e < K {
+            rho_k = ref_mul(rho_k, rho);
+            e += 1;
+        }
+        let dval: u8 = kani::any();
+        if ref_eval(&old[..K], rho) == ref_mul(dval, rho_k) {
+            assert!(ref_eval(&ecc[..K], rho) == ref_mul(ref_mul(dval, rho) ^ a, rho_k));
+        }
+        r += 1;
+    }
+}
+#[kani::proof]
+#[kani::unwind(10)]
+fn ecc_root_step_k5() { check_ecc_root_step::<5>(); }
+#[kani::proof]
+#[kani::unwind(10)]
+fn ecc_root_step_k7() { check_ecc_root_step::<7>(); }
